@@ -4,6 +4,8 @@ package raft
 
 import (
 	"encoding/json"
+
+	"github.com/santhosh-tekuri/raft/log"
 	"fmt"
 	"io/ioutil"
 	"math/rand"
@@ -99,8 +101,16 @@ func (a *cfgShadow) logLits(n *simNode) []string {
 	return es
 }
 
+// cfgCrashEnabled: Abs/CfgRaft.v has the durable prefix, flush and crash steps (observations then carry the
+// durable prefix and the runs contain crashes)
+var cfgCrashEnabled = false
+
 func (a *cfgShadow) obs(n *simNode) string {
 	r := n.r
+	if cfgCrashEnabled {
+		return fmt.Sprintf("(mkO %d %s [%s] %d%%nat %d%%nat)", r.term, absRole(r.state), strings.Join(a.logLits(n), ";"),
+			sat1(log.VerifFlushed(r.log)), sat1(r.commitIndex))
+	}
 	return fmt.Sprintf("(mkO %d %s [%s] %d%%nat)", r.term, absRole(r.state), strings.Join(a.logLits(n), ";"), sat1(r.commitIndex))
 }
 
